@@ -36,7 +36,7 @@ reg("C09", "loaders fail cleanly on malformed or truncated files",
          "removed / duplicated; 11 wrong first lines (class tags), CRLF, BOM, NUL bytes, no final newline, file doubled, "
          "200000-character tokens, 20000-value lines; 150 (600) seeded blind byte flips / deletions / re-insertions / splices "
          "with another seed file. Every mutant is loaded in a forked child (ASan+UBSan, 1 GiB cap on a single allocation, "
-         "10 s CPU limit, watchdog, one re-run before a hang is declared); a returned object goes through basic queries, the "
+         "5 s CPU-time limit, wall-clock watchdog with one re-run before a hang is declared); a returned object goes through basic queries, the "
          "C07 Db consistency rules, save and reload. distinct = (seed kind, instance, batch)",
     level="fault_enumeration",
     require=dict(distinct=100, oracles=dict(quick={"loader-survives": 40000}, thorough={"loader-survives": 200000})),
